@@ -674,10 +674,10 @@ func (res *c15Result) judgeParse(w *c15World, family, label, text string, txn bo
 
 // ---- generators ------------------------------------------------------------------------
 
-var c15NS = map[string]string{"_": "http://d/", "ex": "http://ex/ns#", "s": "https://sec/"}
+var c15NS = map[string]string{"_": "http://d/", "ex": "http://ex/ns#", "s": "https://sec/", "httpx": "http://hx/"}
 
 func ctxJSON() string {
-	return `{"id":"@context","namespaces":{"_":"http://d/","ex":"http://ex/ns#","s":"https://sec/"}}`
+	return `{"id":"@context","namespaces":{"_":"http://d/","ex":"http://ex/ns#","s":"https://sec/","httpx":"http://hx/"}}`
 }
 
 // value shapes (JSON text), depth <= 2
@@ -692,7 +692,11 @@ func c15Values() []string {
 	return out
 }
 
-func c15IDs() []string { return []string{"e1", "ex:e1", "http://abs/e1", "https://sec/p#e1", "s:e:1"} }
+// id forms: default prefix, declared prefix, absolute http and https URIs, a local part with a colon, and a
+// declared prefix that merely starts with the letters of a URI scheme (with and without a slash in the local part)
+func c15IDs() []string {
+	return []string{"e1", "ex:e1", "http://abs/e1", "https://sec/p#e1", "s:e:1", "httpx:e1", "httpx:a/b"}
+}
 
 func c15Refs() []string {
 	return []string{``, `"r":"t1"`, `"ex:r":["t1","ex:t2"]`, `"http://abs/r":"https://sec/t3","r2":[]`, `"r":"t1","ex:r":"t1"`}
@@ -981,7 +985,7 @@ func c15Run(t c15Task) (res c15Result) {
 				continue
 			}
 			d1, d2 := w.newDataset(), w.newDataset()
-			text := `{"@context":{"namespaces":{"_":"http://d/","ex":"http://ex/ns#","s":"https://sec/"}},"` + d1 + `":[` + strings.Join(docs[i], ",") + `],"` + d2 + `":[` + docs[i][0] + `]}`
+			text := `{"@context":{"namespaces":{"_":"http://d/","ex":"http://ex/ns#","s":"https://sec/","httpx":"http://hx/"}},"` + d1 + `":[` + strings.Join(docs[i], ",") + `],"` + d2 + `":[` + docs[i][0] + `]}`
 			label := fmt.Sprintf("txn%d", i)
 			class := res.judgeParse(w, "roundtrip", label, text, true)
 			if class != "valid" {
@@ -1197,7 +1201,7 @@ func init() {
 		}
 	})
 	engine.RegisterCheck("C15", func(r *engine.Run) {
-		r.Rule = "ENUM on the real EntityStreamParser and the real POST/GET handlers (echo router, recover middleware): (1) every document of the round-trip box (5 id forms x 19 value shapes of depth <= 2 x 5 ref shapes x 3 deleted states, plus two-entity, repeated-id, prefixed-key and key-order documents; each with and without a continuation element): ParseStream = denotation, POST then GET changes / GET entities parsed back = denotation, same through POST /transactions; (2) for each of 6 stream seeds and a transaction seed: every byte prefix and every single-token mutation (wrong type from a menu, deletion, other bracket, swap with next) at every token position, at parser level and through the handlers, judged by a reference recogniser written from the specification (valid / invalid / open); (3) every string over the alphabet []{}\":,a1<space> up to the stated length through both parsers. distinct = distinct documents/texts classified"
+		r.Rule = "ENUM on the real EntityStreamParser and the real POST/GET handlers (echo router, recover middleware): (1) every document of the round-trip box (7 id forms x 19 value shapes of depth <= 2 x 5 ref shapes x 3 deleted states, plus two-entity, repeated-id, prefixed-key and key-order documents; each with and without a continuation element): ParseStream = denotation, POST then GET changes / GET entities parsed back = denotation, same through POST /transactions; (2) for each of 6 stream seeds and a transaction seed: every byte prefix and every single-token mutation (wrong type from a menu, deletion, other bracket, swap with next) at every token position, at parser level and through the handlers, judged by a reference recogniser written from the specification (valid / invalid / open); (3) every string over the alphabet []{}\":,a1<space> up to the stated length through both parsers. distinct = distinct documents/texts classified"
 		r.Assumptions = []string{"left open (only no-panic/no-hang is demanded): unknown keys, missing id, null property values, trailing bytes after the closing bracket, a context without namespaces, a continuation element that is not last", "a panic that reaches the recover middleware (HTTP 500) is not fatal at handler level; at parser level any panic is a violation (job sources call the parser without that middleware)", "JSON numbers are float64 on both sides"}
 		var tasks []json.RawMessage
 		var desc []c15Task
